@@ -134,6 +134,12 @@ struct carquet_column_reader {
     /* Retained page data for BYTE_ARRAY value pointers */
     uint8_t* page_data_for_values;
 
+    /* Page data of pages finished during the current read call: values already
+     * handed out by that call still point into them (freed on the next read call) */
+    uint8_t** retired_page_data;
+    size_t retired_count;
+    size_t retired_capacity;
+
     /* Current page state for partial reads */
     bool page_loaded;           /* Is a page currently loaded? */
     int32_t page_num_values;    /* Total values in current page */
@@ -175,6 +181,11 @@ carquet_mmap_info_t* carquet_mmap_open(const char* path, carquet_error_t* error)
  * Close memory mapping and release resources.
  */
 void carquet_mmap_close(carquet_mmap_info_t* mmap_info);
+
+/**
+ * Free the page buffers kept alive for BYTE_ARRAY values returned by the previous read call.
+ */
+void carquet_column_reader_release_retired(carquet_column_reader_t* reader);
 
 /**
  * Check if a page is eligible for zero-copy reading.
